@@ -170,10 +170,47 @@ pub fn validate(ctx: &Context, sys: &TransitionSystem, w: &Witness, p: &mut Proc
                     break;
                 }
             }
+            let mut kind = "not-an-execution-hitting-the-listed-bad-states".to_string();
             if why.is_empty() {
-                why.push(format!("the listed failed bad states {:?} are not exactly the bad states that hold at step {last}", w.failed_safety));
+                // which bad states are forced to hold / not to hold under the pins?
+                let call = cons.join(" ");
+                let mut omitted = vec![];
+                let mut wrongly_listed = vec![];
+                for (i, b) in ru.bads[last].iter().enumerate() {
+                    queries += 2;
+                    let can_hold = p.check_once(&format!("{text}{pins}(assert (and true {call} (= {b} #b1)))\n")) == Answer::Sat;
+                    let can_fail = p.check_once(&format!("{text}{pins}(assert (and true {call} (= {b} #b0)))\n")) == Answer::Sat;
+                    if can_hold && !can_fail && !failed.contains(&i) {
+                        omitted.push(i);
+                    }
+                    if can_fail && !can_hold && failed.contains(&i) {
+                        wrongly_listed.push(i);
+                    }
+                }
+                let has_array_eq = |i: usize| -> bool {
+                    let mut st = vec![sys.bad_states[i]];
+                    let mut seen = std::collections::HashSet::new();
+                    while let Some(e) = st.pop() {
+                        if seen.insert(e) {
+                            let n = crate::refsmt::decompose(&ctx[e]);
+                            if n.op == crate::refsmt::Op::ArrayEqual {
+                                return true;
+                            }
+                            st.extend(n.kids);
+                        }
+                    }
+                    false
+                };
+                if wrongly_listed.is_empty() && !omitted.is_empty() && omitted.iter().all(|i| has_array_eq(*i)) {
+                    kind = "failed-set-omits-bad-state-with-array-equality".to_string();
+                } else if wrongly_listed.is_empty() && !omitted.is_empty() {
+                    kind = "failed-set-omits-a-bad-state-that-holds".to_string();
+                } else if !wrongly_listed.is_empty() {
+                    kind = "failed-set-lists-a-bad-state-that-does-not-hold".to_string();
+                }
+                why.push(format!("the listed failed bad states {:?} are not exactly the bad states that hold at step {last}: omitted {omitted:?}, wrongly listed {wrongly_listed:?}", w.failed_safety));
             }
-            bad("not-an-execution-hitting-the-listed-bad-states", why.join("; "), &mut problems);
+            bad(&kind, why.join("; "), &mut problems);
         }
         other => inconclusive.push(format!("Q1: {}", other.short())),
     }
